@@ -36,8 +36,16 @@ MIN_COUNTERS = {"quick": {"doc_examples_loaded": 4, "malformed_rejected": 8, "wr
 # ----------------------------------------------------------------------------------
 # writer side
 # ----------------------------------------------------------------------------------
-def expected_entry(node, typed):
-    """What the documentation says the *uncompressed* entry of a node is (given our mappers)."""
+def expected_entry(node, typed, tagged=False):
+    """What the documentation says the *uncompressed* entry of a node is (given our mappers).
+    tagged: the flavour's save mapper adds a `tag` to every dict entry."""
+    e = _expected_entry(node, typed)
+    if tagged and isinstance(e, dict):
+        e["tag"] = "o" if isinstance(node.data, sergen.Obj) else "s"
+    return e
+
+
+def _expected_entry(node, typed):
     from nutree.common import DictWrapper
 
     d = node.data
@@ -69,7 +77,7 @@ def expected_entry(node, typed):
     return e
 
 
-def decode_and_check(doc, t, typed, eff_key_map, eff_value_map_keys, user_meta, res, bad):
+def decode_and_check(doc, t, typed, eff_key_map, eff_value_map_keys, user_meta, res, bad, tagged=False):
     import nutree
 
     if not isinstance(doc, dict) or not {"meta", "nodes"} <= set(doc):
@@ -144,7 +152,7 @@ def decode_and_check(doc, t, typed, eff_key_map, eff_value_map_keys, user_meta, 
             if isinstance(data, int) and not isinstance(data, bool):
                 bad.append(f"entry {p}: first occurrence stored as reference {data!r}")
                 continue
-        exp = expected_entry(node, typed)
+        exp = expected_entry(node, typed, tagged)
         if isinstance(exp, str):
             if data != exp:
                 bad.append(f"entry {p}: {data!r}, expected the plain string {exp!r}")
@@ -221,7 +229,7 @@ def run_writer(case, res):
             res.case(case, nontrivial=n >= 4 and t.count_unique < n)
             res.count("writer_docs")
             res.observe("documents_decoded", fp.getvalue())
-            decode_and_check(doc, t, typed, dict(eff_km), vkeys, user_meta, res, bad)
+            decode_and_check(doc, t, typed, dict(eff_km), vkeys, user_meta, res, bad, tagged=case["flavour"] in ("typed_mixed", "mixed_ids"))
             if fp.getvalue() != json.dumps(doc, separators=(",", ":")) and fp.getvalue() != json.dumps(doc, separators=(",", ":"), ensure_ascii=True):
                 pass  # formatting details are not part of the layout
     except CaseTimeout:
